@@ -1542,3 +1542,22 @@ package query
 //@       exists(i, 0, $i, records[q] == view.RecordSet[i] && isRightKey(calcView, view.comparisonKeysInEachRecord[i])))
 //@   loop 2 modifies fresh
 //@   modifies *
+
+// the comparison key of a row is built from exactly the values of the selected columns of that row (all columns when no
+// select list is recorded), and a worker writes only the key slot of its own row
+//@ func (*View).GenerateComparisonKeys$1
+//@   property C04 C12 C13
+//@   requires view != nil && 0 <= index && index < len(view.comparisonKeysInEachRecord) && index < len(view.RecordSet)
+//@   requires view.selectFields != nil ==> forall(j, 0, len(view.selectFields), 0 <= view.selectFields[j] && view.selectFields[j] < len(view.RecordSet[index]) && len(view.RecordSet[index][view.selectFields[j]]) >= 1)
+//@   requires view.selectFields == nil ==> len(view.Header) >= len(view.RecordSet[index]) && forall(j, 0, len(view.RecordSet[index]), len(view.RecordSet[index][j]) >= 1)
+//@   assert after call SerializeComparisonKeys#*: [key-built-from-the-selected-columns] view.selectFields != nil ==> len(primaries) == len(view.selectFields) &&
+//@       forall(j, 0, len(primaries), primaries[j] == view.RecordSet[index][view.selectFields[j]][0])
+//@   assert after call SerializeComparisonKeys#*: [key-built-from-all-columns] view.selectFields == nil ==>
+//@       forall(j, 0, len(view.RecordSet[index]), primaries[j] == view.RecordSet[index][j][0])
+//@   ensures [other-rows-keys-untouched] forall(k, 0, len(view.comparisonKeysInEachRecord), k != index ==> view.comparisonKeysInEachRecord[k] == old(view.comparisonKeysInEachRecord[k]))
+//@   loop 1 invariant 0 <= $i && $i <= len(view.selectFields) && len(primaries) == len(view.selectFields) && fresh(primaries) && forall(j, 0, $i, primaries[j] == view.RecordSet[index][view.selectFields[j]][0])
+//@   loop 1 modifies primaries[*]
+//@   loop 2 invariant 0 <= $i && $i <= len(view.RecordSet[index]) && len(primaries) == len(view.Header) && fresh(primaries) && forall(j, 0, $i, primaries[j] == view.RecordSet[index][j][0])
+//@   loop 2 modifies primaries[*]
+//@   ownwrites C: MD: ML: MV:
+//@   modifies *
